@@ -713,6 +713,19 @@ def ref_tlv_walk(b):
 ALPHABET = [0x00, 0x20, 0x2b, 0x2d, 0x30, 0x31, 0x39, 0x40, 0x4e, 0x5f, 0x60, 0x6d, 0x9f, 0xb2, 0xf0, 0xf1, 0xf9, 0xff, 0x61, 0x41]
 
 
+def hex_bitmap_blanks(rng, b):
+    """a message with a hexadecimal bitmap in which whole hex PAIRS are replaced by white space, sign or prefix
+    characters (lenient hex parsers skip blanks between pairs, accept 0x / +): the bitmap then no longer has 32 hex digits"""
+    out = []
+    for fill in (b'  ', b'\t\t', b'\n\n', b' \t', b'0x', b'+1', b'_0', b'  ' * 2):
+        o = 4 + 2 * rng.randrange(0, 16 - len(fill) // 2 + 1)
+        out.append(b[:o] + fill + b[o + len(fill):])
+    out.append(b[:4] + b' ' * 32 + b[36:])
+    out.append(b[:4] + b[4:20] + b' ' * 16 + b[36:])
+    out.append(b[:4] + b' ' * 16 + b[20:36] + b[36:])
+    return out
+
+
 def alphabet(codec):
     extra = []
     # sign, space, underscore, digits, every whitespace class (C-locale, U+001C..U+001F which are isspace() but which
